@@ -292,12 +292,14 @@ def profile(kind: str):
         return P(max_stmts=6, functions=False)
     if kind == "funcs":
         return P(max_stmts=5, functions=True)
+    if kind == "tco":
+        return P(max_stmts=4, functions=True, max_funcs=3, tco_safe=True, for_list=False, index_lists=False, max_depth=1)
     if kind == "deep":
         return P(max_stmts=3, functions=True, max_funcs=4, call_heavy=True, loops=False, for_list=False, index_lists=False, max_depth=1, max_globals=3)
     if kind == "loopctl":
         return P(max_stmts=5, functions=False, loopctl_heavy=True, index_lists=False, max_depth=1)
     if kind == "calls":
-        return P(max_stmts=4, functions=True, call_heavy=True, loops=True, for_list=False, index_lists=False, max_depth=1)
+        return P(max_stmts=4, functions=True, call_heavy=True, loops=True, for_list=False, index_lists=False, max_depth=1, return_in_loops=True)
     if kind == "terminating":
         return P(max_stmts=5, functions=True, terminating_main_with_functions=True)
     raise ValueError(kind)
